@@ -284,7 +284,10 @@ pub fn judge(project: &Project, case: &Value, reply: &Value) -> Vec<Violation> {
                         // the error must blame a file that was actually touched (or any file when the manifest or
                         // the locales directory was faulted, since they decide which files are looked for); an
                         // adversarial project carries its odd value in a file from the start: no fault to blame
-                        if !manifest_faulted && !dir_faulted && case["adversarial"] != true {
+                        // (the bare build's code generator refuses any file that needs a plural / formatter feature,
+                        // fault or not: that refusal is about the build, not about a fault)
+                        let feature_refusal = stage == "codegen" && crate::corpus::VARIANT == "bare";
+                        if !manifest_faulted && !dir_faulted && case["adversarial"] != true && !feature_refusal {
                             let raw_paths: Vec<String> = st["paths"].as_array().map(|a| a.iter().filter_map(|p| p.as_str().map(String::from)).collect()).unwrap_or_default();
                             let paths: Vec<String> = raw_paths.iter().map(|p| norm_path(p)).collect();
                             let blamed_touched = paths.iter().any(|p| {
